@@ -419,6 +419,17 @@ Proof.
     + destruct H as [p [u [W [G _]]]]. rewrite (Hn _ _ W) in G. discriminate.
 Qed.
 
+Theorem astar_complete_total g start ord h tbs :
+  wf_graph g -> (start < g_n g)%nat -> consistent g h -> ord_ok ord ->
+  ((exists vis, astar g start ord h tbs = NoPlan vis) <->
+   (forall p u, walk g start p u -> g_goal g u = false)) /\
+  astar g start ord h tbs <> OutOfFuel /\ astar g start ord h tbs <> Broken.
+Proof.
+  intros Hwf Hs Hc Ho. split; [apply astar_complete; auto|].
+  pose proof (astar_total g start ord h tbs Hwf Hs Hc Ho) as H.
+  destruct (astar g start ord h tbs); split; try discriminate; contradiction.
+Qed.
+
 (* non-vacuity: a consistent non-zero heuristic (the exact distances) on the example graph; lifo
    tie-breaking; the loop returns the cost-3 path through the zero-cost edge *)
 Example astar_example :
